@@ -404,3 +404,67 @@ func RerootInMemory(t *tree.Tree, sel int) error {
 	}
 	return t.Reroot(cand[(sel-1)%len(cand)])
 }
+
+// IndexesExact compares the tip index and every branch's recorded split (bitset, tip counts,
+// topological depth) with the split obtained by cutting that branch in the reference reading of
+// the tree's Newick text.
+func IndexesExact(t *tree.Tree) error {
+	m, err := Read(t)
+	if err != nil {
+		return err
+	}
+	tx, err := ref.NewTaxa(m.Tips())
+	if err != nil {
+		return err
+	}
+	n := tx.N()
+	for i, name := range tx.Names {
+		idx, err := t.TipIndex(name)
+		if err != nil {
+			return fmt.Errorf("TipIndex(%q): %v", name, err)
+		}
+		if idx != i {
+			return fmt.Errorf("TipIndex(%q) = %d, rank in sorted names is %d", name, idx, i)
+		}
+	}
+	cl, err := tx.Clades(m)
+	if err != nil {
+		return err
+	}
+	pairs, err := PairEdges(t, m)
+	if err != nil {
+		return err
+	}
+	for _, p := range pairs {
+		below := cl[p.M]
+		k := below.Count()
+		bs := p.E.Bitset()
+		if bs == nil {
+			return fmt.Errorf("nil bitset on the branch above %v", tx.NamesOf(below))
+		}
+		if int(bs.Len()) != n {
+			return fmt.Errorf("bitset of width %d in a tree with %d tips", bs.Len(), n)
+		}
+		for i := 0; i < n; i++ {
+			if bs.Test(uint(i)) != below.Has(i) {
+				return fmt.Errorf("branch above %v: bitset says tip %q is %v", tx.NamesOf(below), tx.Names[i], bs.Test(uint(i)))
+			}
+		}
+		if p.E.NumTipsRight() != k || p.E.NumTipsLeft() != n-k {
+			return fmt.Errorf("branch above %v: tip counts %d/%d, expected %d/%d", tx.NamesOf(below), p.E.NumTipsRight(), p.E.NumTipsLeft(), k, n-k)
+		}
+		d, err := p.E.TopoDepth()
+		min := k
+		if n-k < k {
+			min = n - k
+		}
+		if min == 0 {
+			continue // only under a single-child root
+		}
+		if err != nil || d != min {
+			return fmt.Errorf("branch above %v: topological depth %d (%v), expected %d", tx.NamesOf(below), d, err, min)
+		}
+	}
+	return nil
+}
+
